@@ -193,12 +193,12 @@ def judge_case(ref, top, v, props, results, cid, spans_le, canon, viol, art, fix
     if 'C19' in props and len(enc) == 3:
         if enc['native'] != enc['little']:
             viol('C19', 'cpp|native-differs-from-host-order', art('native', canon['<'], 'encode() != encode<little>()'))
-        if enc['little'] == canon['<']:
+        if len(enc['little']) != len(enc['big']):
+            viol('C19', 'cpp|length', art('big', canon['>'], 'little/big lengths differ'))
+        elif R.differs_only_in_padding(spans_le, canon['<'], enc['little']):
             why = R.scalar_mirror_ok(spans_le, enc['little'], enc['big'])
             if why:
-                viol('C19', 'cpp|' + why.split(' at ')[0], art('big', canon['>'], why))
-        elif len(enc['little']) != len(enc['big']):
-            viol('C19', 'cpp|length', art('big', canon['>'], 'little/big lengths differ'))
+                viol('C19', 'cpp|' + why.split(' at ')[0].split(' .')[0], art('big', canon['>'], why))
 
 
 def size_consistency(r, fixed_size):
